@@ -111,6 +111,10 @@ func (c *Ctx) indCaseWith(typeKey string, sp Spec, inputs [][]float64, reg strin
 	}
 	term := fmt.Sprintf("(let c_ := %s in CInd %s %s %s %s %s %s)", cfg, coqOuts(t, "c_"), idleTerm(t, "c_"), admTerm(typeKey, t, "c_"),
 		coqListListF(inputs), coqListListF(obs), coqBool(hung))
+	if goldMode {
+		term = fmt.Sprintf("(let c_ := %s in CGold %s %s %s %s %s %s)", cfg, coqOuts(t, "c_"), coqOutsNamed(t, "gold_"+t.Coq+"_Compute", "c_"), admTerm(typeKey, t, "c_"),
+			coqListListF(inputs), coqListListF(obs), coqBool(hung))
+	}
 	ins := make([][]string, len(inputs))
 	for i := range inputs {
 		ins[i] = jsonF(inputs[i])
